@@ -58,6 +58,9 @@ def random_grid(rng):
     mn = rng.choice((0.0, 0.0, 0.0, 1.0, 2.0, 4.0, 0.5, 0.125, 1.005))
     nmax = int((16.0 - mn) / step)
     n = rng.randrange(3, max(4, min(141 if step >= 0.05 else 400, nmax)))
+    if rng.random() < 0.05:
+        # a grid of one point (-g 7 7 0.1): still a grid - one row in each table
+        return (mn, mn, step)
     if rng.random() < 0.25:
         # a maximum between two grid points: 0.2 .. 0.9 of a step beyond the last one
         return (mn, round(mn + (n + rng.choice((0.2, 0.5, 0.6, 0.9))) * step, 6), step)
